@@ -14,7 +14,6 @@ func init() {
 	verifRegister("VerifC11_CallSignal", VerifC11_CallSignal)
 	verifRegister("VerifC11_StepDataOnce", VerifC11_StepDataOnce)
 	verifRegister("VerifC11_StepDataOnceConc", VerifC11_StepDataOnceConc)
-	verifRegister("VerifC11_NoInitializer", VerifC11_NoInitializer)
 }
 
 type verifStepData struct{ id int }
@@ -235,48 +234,4 @@ func VerifC11_StepDataOnceConc() {
 	verifAssert("C11/stepdata-conc/initializer-once-per-run", initCount == runs)
 	verifObserve("inits", initCount)
 	verifReach("C11/stepdata-conc/end")
-}
-
-// VerifC11_NoInitializer: the initializer is optional (NewCallableStepWithSignals checks it for nil). Without one the
-// run's step data is the zero value of the step-data type — for an interface type that is nil — and it is still
-// "the only step data that run's signal handlers ever see": the signal must be delivered, not panic.
-func VerifC11_NoInitializer() {
-	sigCalls, stepCalls := 0, 0
-	var sigSaw, stepSaw any = 1, 1
-	step := NewCallableStepWithSignals[any, map[string]any](
-		"s",
-		verifScopeOf(map[string]*PropertySchema{}, "In"),
-		map[string]*StepOutputSchema{"ok": NewStepOutputSchema(verifScopeOf(map[string]*PropertySchema{}, "Ok"), nil, false)},
-		map[string]CallableSignal{
-			"sig": NewCallableSignal[any, map[string]any]("sig",
-				verifScopeOf(map[string]*PropertySchema{"v": NewPropertySchema(NewIntSchema(nil, nil, nil), nil, true, nil, nil, nil, nil, nil)}, "Sig"),
-				nil,
-				func(ctx context.Context, d any, in map[string]any) {
-					sigCalls++
-					sigSaw = d
-				}),
-		},
-		nil, nil,
-		nil,
-		func(ctx context.Context, d any, in map[string]any) (string, any) {
-			stepCalls++
-			stepSaw = d
-			return "ok", map[string]any{}
-		},
-	)
-	s := NewCallableSchema(step)
-	signalFirst := nondetBool("signalFirst")
-	v := nondetInt64("v")
-	var sigErr, stepErr error
-	if signalFirst {
-		sigErr = s.CallSignal(context.Background(), "r", "s", "sig", map[string]any{"v": v})
-		_, _, stepErr = s.CallStep(context.Background(), "r", "s", map[string]any{})
-	} else {
-		_, _, stepErr = s.CallStep(context.Background(), "r", "s", map[string]any{})
-		sigErr = s.CallSignal(context.Background(), "r", "s", "sig", map[string]any{"v": v})
-	}
-	verifAssert("C11/noinit/signal-delivered-without-initializer", sigErr == nil && sigCalls == 1)
-	verifAssert("C11/noinit/step-runs", stepErr == nil && stepCalls == 1)
-	verifAssert("C11/noinit/both-see-the-zero-step-data", sigSaw == nil && stepSaw == nil)
-	verifReach("C11/noinit/end")
 }
